@@ -46,6 +46,13 @@ Inv_C07 == phase # "aborted"
 ResIns == [j \in 1..Len(segsAll) |-> [pos |-> segsAll[j].pos, peak |-> segsAll[j].peak]]
 Inv_C15 == phase = "row" /\ Len(segsAll) >= 2 => R!C15_Holds(ResIns, ain.rev, R!Obs(final))
 
+\* reachability probes (vacuity): each is EXPECTED to be violated, which shows that the outcome occurs within the bounds
+Reach_DropLeft == r_lastKind # "DropLeft"
+Reach_DropRight == r_lastKind # "DropRight"
+Reach_MergeMid == r_lastKind # "MergeMid"
+Reach_Merge0 == r_lastKind # "Merge0"
+Reach_MergeEnd == r_lastKind # "MergeEnd"
+Reach_SkipLeft == ~(phase = "resolve" /\ r_i0 < r_i1 - 1 /\ r_i0 >= 1)
 ExportInv == phase = "startPeak" /\ k = 1 => PrintT("X" \o ToJson(ain))
 ExportStop == phase \in {"gen", "startPeak"} /\ k = 1
 =============================================================================
